@@ -18,6 +18,11 @@ def run(ctx):
                 continue
             mod.run(ctx)
             used.append(m)
+        if not ctx.thorough:
+            # requests that fail inside the SOCKS5 forwarder with client-controlled credentials in every shape
+            # (quick tier: the tunnel-level slice only; the thorough tier runs all of C15 above)
+            importlib.import_module("c15").socks_tunnel_job(ctx)
+            used.append("c15.tun")
     finally:
         ctx.finish = real_finish
     ctx.notes.append("C20 scenario sources: c01 " + " ".join(used))
